@@ -55,7 +55,8 @@ from psyclone.psyir.nodes.directive import (StandaloneDirective,
                                             RegionDirective)
 from psyclone.psyir.nodes.intrinsic_call import IntrinsicCall
 from psyclone.psyir.nodes.loop import Loop
-from psyclone.psyir.nodes.omp_directives import OMPDirective
+from psyclone.psyir.nodes.omp_directives import (
+    OMPDeclareTargetDirective, OMPDirective)
 from psyclone.psyir.nodes.psy_data_node import PSyDataNode
 from psyclone.psyir.nodes.reference import Reference
 from psyclone.psyir.nodes.routine import Routine
@@ -185,6 +186,35 @@ class ACCStandaloneDirective(ACCDirective, StandaloneDirective,
 class ACCRoutineDirective(ACCStandaloneDirective):
     ''' Class representing a "!$ACC routine" OpenACC directive in PSyIR. '''
 
+    def validate_global_constraints(self):
+        '''
+        Perform validation checks that can only be done at code-generation
+        time.
+
+        :raises GenerationError: if this directive is not in the leading
+            block of declarative directives of a Routine.
+        :raises GenerationError: if the Routine contains OpenACC compute
+            regions or OpenMP directives.
+
+        '''
+        if self.parent and (
+                not isinstance(self.parent, Routine) or
+                not all(isinstance(node, (ACCRoutineDirective,
+                                          OMPDeclareTargetDirective))
+                        for node in self.parent.children[:self.position])):
+            raise GenerationError(
+                "An ACCRoutineDirective must be at the start of a Routine "
+                "(only preceded by other declarative directives).")
+        if self.parent and (
+                self.parent.walk((ACCParallelDirective,
+                                  ACCKernelsDirective)) or
+                any(not isinstance(node, OMPDeclareTargetDirective)
+                    for node in self.parent.walk(OMPDirective))):
+            raise GenerationError(
+                "A Routine marked with an ACCRoutineDirective cannot contain "
+                "OpenACC parallel or kernels regions or OpenMP directives.")
+        super().validate_global_constraints()
+
     def gen_code(self, parent):
         '''Generate the fortran ACC Routine Directive and any associated code.
 
@@ -227,6 +257,21 @@ class ACCEnterDataDirective(ACCStandaloneDirective):
         self._acc_dirs = None  # List of parallel directives
 
         self._sig_set = set()
+
+    def validate_global_constraints(self):
+        '''
+        Perform validation checks that can only be done at code-generation
+        time.
+
+        :raises GenerationError: if this directive is within an OpenACC
+            parallel or kernels region.
+
+        '''
+        if self.ancestor((ACCParallelDirective, ACCKernelsDirective)):
+            raise GenerationError(
+                f"{type(self).__name__} cannot be nested inside an OpenACC "
+                f"parallel or kernels region.")
+        super().validate_global_constraints()
 
     def gen_code(self, parent):
         '''Generate the elements of the f2pygen AST for this Node in the
@@ -908,6 +953,21 @@ class ACCUpdateDirective(ACCStandaloneDirective):
         self.sig_set = signatures
         self.direction = direction
         self.if_present = if_present
+
+    def validate_global_constraints(self):
+        '''
+        Perform validation checks that can only be done at code-generation
+        time.
+
+        :raises GenerationError: if this directive is within an OpenACC
+            parallel or kernels region.
+
+        '''
+        if self.ancestor((ACCParallelDirective, ACCKernelsDirective)):
+            raise GenerationError(
+                f"{type(self).__name__} cannot be nested inside an OpenACC "
+                f"parallel or kernels region.")
+        super().validate_global_constraints()
 
     def __eq__(self, other):
         '''
